@@ -159,6 +159,43 @@ def corpus():
     return res
 
 
+def limit_case(out):
+    """the reader's length limit (implementation only: the inputs are a megabyte each): a sysex event of exactly MAX_MESSAGE_LENGTH bytes
+    without the closing F7 loads, but its saved form is one byte longer and no longer loads - the load-save-load clause fails there"""
+    import io
+    import mido
+    from mido.midifiles.meta import encode_variable_int
+    from mido.midifiles.midifiles import MAX_MESSAGE_LENGTH
+
+    def mk(n, with_f7):
+        data = bytes([1]) * n + (b'\xf7' if with_f7 else b'')
+        ev = bytes([0, 0xF0]) + bytes(encode_variable_int(len(data))) + data + bytes([0, 0xFF, 0x2F, 0])
+        trk = b'MTrk' + len(ev).to_bytes(4, 'big') + ev
+        return b'MThd' + (6).to_bytes(4, 'big') + (1).to_bytes(2, 'big') + (1).to_bytes(2, 'big') + (480).to_bytes(2, 'big') + trk
+    n = 0
+    for size, f7 in ((MAX_MESSAGE_LENGTH, False), (MAX_MESSAGE_LENGTH - 1, True), (MAX_MESSAGE_LENGTH - 1, False)):
+        n += 1
+        try:
+            mf = mido.MidiFile(file=io.BytesIO(mk(size, f7)))
+        except Exception:  # noqa: BLE001
+            continue                                            # a string that does not load is outside the clause
+        try:
+            buf = io.BytesIO()
+            mf.save(file=buf)
+        except ValueError:
+            continue
+        try:
+            mf2 = mido.MidiFile(file=io.BytesIO(buf.getvalue()))
+            ok = [list(m.data) if m.type == 'sysex' else m.type for m in mf2.tracks[0]] == [list(m.data) if m.type == 'sysex' else m.type for m in mf.tracks[0]]
+            if not ok:
+                out.failures.append(('fixpoint', 'a sysex event of %d bytes (closing F7: %r) changes through load-save-load' % (size, f7), {'component': 'limit', 'size': size, 'f7': f7}))
+        except Exception as e:  # noqa: BLE001
+            out.failures.append(('sysex-at-limit', 'a track holding a sysex event of %d bytes without the closing F7 loads and saves, but the saved bytes do not load: %r'
+                                 % (size, e), {'component': 'limit', 'size': size, 'f7': f7}))
+    out.evaluations += n
+    out.components['sysex at the reader limit (implementation only)'] = {'cases': n}
+
+
 def run(out):
     rng = random.Random(out.seed)
     nfiles = 1500 if out.tier == 'quick' else 20000
@@ -199,6 +236,7 @@ def run(out):
     jobs += [('load', COMP_L, c) for _, COMP_L, c in __import__('props.parser_common', fromlist=['x']).chunk_jobs(load_cases, 'load', sc.COMP_LOAD)]
     for tag, rec in core.pmap(job, jobs):
         core.merge_into(out, rec, tag)
+    limit_case(out)
     out.rule = ('%d generated files (types 0/1/2, 0-4 tracks, 0-24 events mixing channel runs that trigger and break running status, system '
                 'common, sysex of length 0..129, all 17 known meta types at range limits, unknown meta types, end_of_track missing/repeated/'
                 'mid-track, deltas at every variable-length-quantity boundary), a quarter of them with one kind of unstorable content; saved bytes '
